@@ -183,6 +183,55 @@ def gen_large(rng, min_stems=40, max_stems=110):
     return {"triples": layout(order, lengths, gaps, rng), "family": "large:%d" % base}
 
 
+def gen_gapped_helix(rng):
+    """A helix of two (or three) stacked segments whose one- or two-nucleotide gaps are not unpaired bulges but
+    the arms of short stems that pair far away, before or after the helix - so that those stems cross only one
+    segment.  Treating the segments as one helix, or the gap as 'too short to matter', goes wrong here and on no
+    ordinary bulged helix."""
+    segs = rng.choice([2, 2, 3])
+    seg_ids = list(range(segs))
+    lengths = [rng.choice([2, 2, 3]) for _ in seg_ids]
+    nxt = segs
+    pre, post = [], []
+    gaps5 = [[] for _ in range(segs - 1)]  # between the 5' arms of segment k and k+1
+    gaps3 = [[] for _ in range(segs - 1)]  # between the 3' arms of segment k+1 and k
+    for _ in range(rng.randint(1, 3)):
+        k = rng.randrange(segs - 1)
+        side = rng.choice(["5", "3"])
+        room = 2 - sum(lengths[e] for e in (gaps5 if side == "5" else gaps3)[k])
+        if room <= 0:
+            continue
+        e = nxt
+        nxt += 1
+        lengths.append(rng.randint(1, room))
+        (gaps5 if side == "5" else gaps3)[k].append(e)
+        (pre if rng.random() < 0.5 else post).append(e)
+    order = list(pre)
+    for k in seg_ids:
+        order.append(k)
+        if k < segs - 1:
+            order += gaps5[k]
+    for k in reversed(seg_ids):
+        order.append(k)
+        if k > 0:
+            order += gaps3[k - 1]
+    order += post
+    # relabel by first appearance (layout treats the first occurrence as the 5' arm)
+    relabel, out, lens = {}, [], []
+    for x in order:
+        if x not in relabel:
+            relabel[x] = len(relabel)
+            lens.append(lengths[x])
+        out.append(relabel[x])
+    gaps = [0] * (len(out) + 1)
+    inner = segs - 1
+    for pos in range(len(out) - 1):
+        if order[pos] == inner and order[pos + 1] == inner:
+            gaps[pos + 1] = rng.randint(1, 4)  # the hairpin loop
+    gaps[0], gaps[-1] = rng.choice([0, 1]), rng.choice([0, 1])
+    return {"triples": layout(out, lens, gaps, rng), "family": "gappedhelix:%d" % len(lens)}
+
+
 def gen_far_knot(rng):
     """A near-tie knot at the far end of a genome-size molecule: tens of thousands of unpaired positions, then one
     long stem crossed by m two-pair stems whose total is one pair more or one pair fewer than the long stem.  Any
